@@ -184,3 +184,27 @@ Proof.
     rewrite L in E. cbn [rmap rbind snd] in E. injection E as E. exact E. }
   eapply load_truncated; [exact L|]. rewrite Hrest, mini_file_len. lia.
 Qed.
+
+(* every prefix classified: the prefixes that end before the end of the last frame fail with
+   UnexpectedEof, all the others load as the very same sprite *)
+Theorem load_prefix_classified (inflate : list Z -> Z -> zres) (bs : list Z) (f : file) (rest : list Z) :
+  load_rest inflate bs = Ok (f, rest) ->
+  forall m : nat,
+    load inflate (firstn m bs) = if (m <? length bs - length rest)%nat then Err eof else Ok f.
+Proof.
+  intros Hl m. destruct (Nat.ltb_spec m (length bs - length rest)) as [Hlt|Hge].
+  - exact (load_truncated inflate bs f rest m Hl Hlt).
+  - rewrite <- (firstn_skipn (length bs - length rest) (firstn m bs)).
+    rewrite firstn_firstn. rewrite Nat.min_l by exact Hge.
+    apply (load_extension inflate bs f rest Hl).
+Qed.
+
+(* no prefix loads as a different sprite *)
+Theorem load_prefix_never_other (inflate : list Z -> Z -> zres) (bs : list Z) (f : file) (rest : list Z) :
+  load_rest inflate bs = Ok (f, rest) ->
+  forall (m : nat) (g : file), load inflate (firstn m bs) = Ok g -> g = f /\ (length bs - length rest <= m)%nat.
+Proof.
+  intros Hl m g Hg. rewrite (load_prefix_classified inflate bs f rest Hl m) in Hg.
+  destruct (Nat.ltb_spec m (length bs - length rest)) as [Hlt|Hge]; [discriminate|].
+  split; [congruence|exact Hge].
+Qed.
